@@ -123,6 +123,7 @@ package search
 //@
 //@ # gs: an arbitrary board state, [gof, gof+gn): an arbitrary segment of the buffer (schemas, see `instances`)
 //@ ghost gs $BS
+//@ ghost greportHead uint16
 //@ ghost gof int
 //@ ghost gn int
 //@ define rowAt(ply) = int(ply)*64 - int(ply)*(int(ply)-1)/2
@@ -219,7 +220,7 @@ package search
 //@   views pv search
 //@   allow-extern fmt. time. os. strings. io.
 //@   timeout 300
-//@   requires searchInv(s)
+//@   requires searchInv(s) && greportHead == 0 && opts.Output != nil
 //@   ensures [move]   implies(result1 != 0, accS(gbs, uint16(result1)))
 //@   ensures [ponder] implies(result2 != 0, accS(mkS(gbs, uint16(result1)), uint16(result2)))
 //@   ensures [board]  gbs == old(gbs)
@@ -227,14 +228,18 @@ package search
 //@   at-call Fprintf@2 requires [reported] implies(s.pv.depth[0] >= 1, move == s.pv.moves[0]) && implies(s.pv.depth[0] >= 2, ponder == s.pv.moves[1]) && implies(s.pv.depth[0] == 1, ponder == 0)
 //@   # reported depths strictly increase: every report carries the number of the current iteration of the
 //@   # deepening loop (ghost iteration counter), and an iteration reports at most once at each site
+//@   # the move returned is the head of the most recent report: greportHead is set at every `info ... pv`
+//@   # report (ghost assignment) and every return that hands back a reported move hands back exactly it
+//@   at-call Fprintf@2 sets greportHead = uint16(move)
+//@   ensures [reportedHead] implies(greportHead != 0, uint16(result1) == greportHead)
 //@   at-call Fprintf@1 requires [depthA] int(idD) == count(1)
 //@   at-call Fprintf@2 requires [depthB] int(idD) == count(1)
 //@   use lineCons(gbs, arr(s.pv.moves), 0, int(s.pv.depth[0])) at call active@1
 //@   use lineCons(mkS(gbs, uint16(s.pv.moves[0])), arr(s.pv.moves), 1, int(s.pv.depth[0]) - 1) at call active@1
-//@   modifies b.*, gbs, s.aborted, s.hstack.*, s.pv.*, s.ms.*, s.tt.data.*, s.ranker.history.*, s.ranker.captHist.*, s.ranker.continuations[0].*, s.ranker.continuations[1].*, opts.Counters.*, opts.PonderHit
-//@   loop 1: invariant gbs == old(gbs) && s.hstack.sp == old(s.hstack.sp) && len(s.ms.frames) == old(len(s.ms.frames)) && moveOK(move, ponder) && int(idD) == count(1) && 0 <= idD
-//@   loop 1: modifies b.*, gbs, s.aborted, s.hstack.*, s.pv.*, s.ms.*, s.tt.data.*, s.ranker.history.*, s.ranker.captHist.*, s.ranker.continuations[0].*, s.ranker.continuations[1].*, opts.Counters.*, opts.PonderHit, move, ponder, score
-//@   loop 2: invariant gbs == old(gbs) && s.hstack.sp == old(s.hstack.sp) && len(s.ms.frames) == old(len(s.ms.frames)) && moveOK(move, ponder) && implies(awOk, rowOK(s, 0) && rowLen(s, 0))
+//@   modifies greportHead, b.*, gbs, s.aborted, s.hstack.*, s.pv.*, s.ms.*, s.tt.data.*, s.ranker.history.*, s.ranker.captHist.*, s.ranker.continuations[0].*, s.ranker.continuations[1].*, opts.Counters.*, opts.PonderHit
+//@   loop 1: invariant gbs == old(gbs) && s.hstack.sp == old(s.hstack.sp) && len(s.ms.frames) == old(len(s.ms.frames)) && moveOK(move, ponder) && int(idD) == count(1) && 0 <= idD && (greportHead == 0 || uint16(move) == greportHead)
+//@   loop 1: modifies b.*, gbs, s.aborted, s.hstack.*, s.pv.*, s.ms.*, s.tt.data.*, s.ranker.history.*, s.ranker.captHist.*, s.ranker.continuations[0].*, s.ranker.continuations[1].*, opts.Counters.*, opts.PonderHit, move, ponder, score, greportHead
+//@   loop 2: invariant gbs == old(gbs) && s.hstack.sp == old(s.hstack.sp) && len(s.ms.frames) == old(len(s.ms.frames)) && moveOK(move, ponder) && implies(awOk, rowOK(s, 0) && rowLen(s, 0)) && (greportHead == 0 || uint16(move) == greportHead)
 //@   loop 2: modifies b.*, gbs, s.aborted, s.hstack.*, s.pv.*, s.ms.*, s.tt.data.*, s.ranker.history.*, s.ranker.captHist.*, s.ranker.continuations[0].*, s.ranker.continuations[1].*, opts.Counters.*, opts.PonderHit, move, ponder, score
-//@   loop 3: invariant gbs == old(gbs) && s.hstack.sp == old(s.hstack.sp) && len(s.ms.frames) == old(len(s.ms.frames)) + 1 && moveOK(move, ponder) && ponder == 0
+//@   loop 3: invariant gbs == old(gbs) && s.hstack.sp == old(s.hstack.sp) && len(s.ms.frames) == old(len(s.ms.frames)) + 1 && moveOK(move, ponder) && ponder == 0 && greportHead == 0
 //@   loop 3: modifies b.*, gbs, move
